@@ -56,9 +56,20 @@ RunTxF(cfg, sch, idx, topo, hs, st, mut, sc) ==
                     ELSE CHOOSE i \in panicPos : \A j \in panicPos : i <= j
       ran == {negLog1[i] : i \in 1..firstPanic}
       allNeg == UNION {{<<b, h>> : h \in hs.binds[b].neg} : b \in 1..Len(hs.binds)}
-      r == IF firstPanic = 0 THEN r1
-           ELSE RunTx(cfg, sch, idx, topo, hs, base, mut,
-                      sc.veto \cup negFaults \cup (allNeg \ ran))
+      rp == IF firstPanic = 0 THEN r1
+            ELSE RunTx(cfg, sch, idx, topo, hs, base, mut,
+                       sc.veto \cup negFaults \cup (allNeg \ ran))
+      \* recoverToErr: "negotiation phase - canceling is enough".  Pinned code: a
+      \* partially accepted AUTO transition did not look at the flag again - the
+      \* faulted state was merely dropped from the target and whatever the
+      \* re-resolution produced (e.g. the same state, pulled back in by an Add
+      \* relation of an active Multi state) was applied by a transition that
+      \* reports itself not accepted.  Repaired: the transition is canceled.
+      r == IF firstPanic > 0 /\ cfg.autofault /\ rp.applied
+           THEN [rp EXCEPT !.applied = FALSE, !.accepted = FALSE, !.result = "canceled",
+                           !.active = st.active, !.clock = st.clock,
+                           !.tAfter = rp.tBefore, !.autoSet = {}]
+           ELSE rp
       negLog == IF firstPanic = 0 THEN negLog1 ELSE SubSeq(negLog1, 1, firstPanic)
       finLog == IF firstPanic = 0 THEN SubSeq(r.hlog, r.negLen + 1, Len(r.hlog)) ELSE <<>>
       \* the handler goroutine is gone: the first handler call never returns
